@@ -37,12 +37,17 @@ pub struct Prob {
     pub user_jac: bool,
     pub times: std::cell::RefCell<Vec<f64>>,
     pub record_times: bool,
+    /// time reflection: the problem z'(s) = -f(-s, z), whose solution is z(s) = y(-s)
+    pub reflect: bool,
+    /// independent identical copies of the system stacked into one state vector
+    pub copies: usize,
 }
 impl Prob {
     pub fn new(kind: Kind) -> Self {
-        Prob { kind, events: vec![], count: 0.into(), jcount: 0.into(), user_jac: false, times: vec![].into(), record_times: false }
+        Prob { kind, events: vec![], count: 0.into(), jcount: 0.into(), user_jac: false, times: vec![].into(), record_times: false, reflect: false, copies: 1 }
     }
-    pub fn n(&self) -> usize {
+    pub fn n(&self) -> usize { self.n0() * self.copies }
+    pub fn n0(&self) -> usize {
         match self.kind {
             Kind::Harmonic | Kind::VdP | Kind::Mixed | Kind::Stiff | Kind::Const | Kind::VdPStiff | Kind::Slow => 2,
             Kind::Decay3 | Kind::Robertson => 3,
@@ -50,6 +55,10 @@ impl Prob {
         }
     }
     pub fn y0(&self) -> Vec<f64> {
+        let b = self.y00();
+        (0..self.copies).flat_map(|_| b.clone()).collect()
+    }
+    pub fn y00(&self) -> Vec<f64> {
         match self.kind {
             Kind::Harmonic => vec![1.0, 0.0],
             Kind::Logistic => vec![0.1],
@@ -66,6 +75,16 @@ impl Prob {
         }
     }
     pub fn rhs(&self, t: f64, y: &[f64], d: &mut [f64]) {
+        let n0 = self.n0();
+        let tt = if self.reflect { -t } else { t };
+        for c in 0..self.copies {
+            self.rhs0(tt, &y[c * n0..(c + 1) * n0], &mut d[c * n0..(c + 1) * n0]);
+        }
+        if self.reflect {
+            for v in d.iter_mut() { *v = -*v; }
+        }
+    }
+    pub fn rhs0(&self, t: f64, y: &[f64], d: &mut [f64]) {
         match self.kind {
             Kind::Harmonic => { d[0] = y[1]; d[1] = -y[0]; }
             Kind::Logistic => { d[0] = y[0] * (1.0 - y[0]); }
@@ -91,6 +110,10 @@ impl Prob {
     }
     /// exact solution from the default y0 at t0 = 0 (None if not closed-form)
     pub fn exact(&self, t: f64) -> Option<Vec<f64>> {
+        let tt = if self.reflect { -t } else { t };
+        self.exact0(tt).map(|b| (0..self.copies).flat_map(|_| b.clone()).collect())
+    }
+    pub fn exact0(&self, t: f64) -> Option<Vec<f64>> {
         match self.kind {
             Kind::Harmonic => Some(vec![t.cos(), -t.sin()]),
             Kind::Logistic => Some(vec![0.1 * t.exp() / (1.0 + 0.1 * (t.exp() - 1.0))]),
@@ -100,6 +123,36 @@ impl Prob {
             Kind::Const => Some(vec![t, 1.0 - 2.0 * t]),
             Kind::Slow => Some(vec![(-0.01 * t).exp(), 2.0 * (-0.01 * t).exp()]),
             _ => None,
+        }
+    }
+}
+impl Prob {
+    /// analytic Jacobian of one copy of the unreflected problem
+    pub fn jac0(&self, t: f64, y: &[f64], j: &mut Matrix) {
+        match self.kind {
+            Kind::Harmonic => { j[(0, 0)] = 0.0; j[(0, 1)] = 1.0; j[(1, 0)] = -1.0; j[(1, 1)] = 0.0; }
+            Kind::Logistic => { j[(0, 0)] = 1.0 - 2.0 * y[0]; }
+            Kind::Decay3 => {
+                for r in 0..3 { for c in 0..3 { j[(r, c)] = 0.0; } }
+                j[(0, 0)] = -0.5; j[(1, 1)] = -2.0; j[(2, 2)] = -7.0;
+            }
+            Kind::Riccati => { j[(0, 0)] = -4.0 * t * y[0]; }
+            Kind::VdP => { j[(0, 0)] = 0.0; j[(0, 1)] = 1.0; j[(1, 0)] = -2.0 * y[0] * y[1] - 1.0; j[(1, 1)] = 1.0 - y[0] * y[0]; }
+            Kind::Mixed => {
+                let r = 1.0 - y[0] * y[0] - y[1] * y[1];
+                j[(0, 0)] = 0.1 * (r - 2.0 * y[0] * y[0]); j[(0, 1)] = -1.0 - 0.2 * y[0] * y[1];
+                j[(1, 0)] = 1.0 - 0.2 * y[0] * y[1]; j[(1, 1)] = 0.1 * (r - 2.0 * y[1] * y[1]);
+            }
+            Kind::Stiff => { j[(0, 0)] = -1000.0; j[(0, 1)] = 0.0; j[(1, 0)] = 0.0; j[(1, 1)] = -1.0; }
+            Kind::Blowup => { j[(0, 0)] = 2.0 * y[0]; }
+            Kind::Const => { j[(0, 0)] = 0.0; j[(0, 1)] = 0.0; j[(1, 0)] = 0.0; j[(1, 1)] = 0.0; }
+            Kind::VdPStiff => { j[(0, 0)] = 0.0; j[(0, 1)] = 1.0; j[(1, 0)] = -2000.0 * y[0] * y[1] - 1.0; j[(1, 1)] = 1000.0 * (1.0 - y[0] * y[0]); }
+            Kind::Slow => { j[(0, 0)] = -0.01; j[(0, 1)] = 0.0; j[(1, 0)] = 0.0; j[(1, 1)] = -0.01; }
+            Kind::Robertson => {
+                j[(0, 0)] = -0.04; j[(0, 1)] = 1.0e4 * y[2]; j[(0, 2)] = 1.0e4 * y[1];
+                j[(1, 0)] = 0.04; j[(1, 1)] = -1.0e4 * y[2] - 6.0e7 * y[1]; j[(1, 2)] = -1.0e4 * y[1];
+                j[(2, 0)] = 0.0; j[(2, 1)] = 6.0e7 * y[1]; j[(2, 2)] = 0.0;
+            }
         }
     }
 }
@@ -118,6 +171,7 @@ impl IVP for Prob {
         if self.record_times {
             self.times.borrow_mut().push(t);
         }
+        let t = if self.reflect { -t } else { t };
         for (k, e) in self.events.iter().enumerate() {
             let mut g = e.a * t - e.c;
             for (bi, yi) in e.b.iter().zip(y.iter()) {
@@ -160,30 +214,15 @@ impl IVP for Prob {
             }
             return;
         }
-        match self.kind {
-            Kind::Harmonic => { j[(0, 0)] = 0.0; j[(0, 1)] = 1.0; j[(1, 0)] = -1.0; j[(1, 1)] = 0.0; }
-            Kind::Logistic => { j[(0, 0)] = 1.0 - 2.0 * y[0]; }
-            Kind::Decay3 => {
-                for r in 0..3 { for c in 0..3 { j[(r, c)] = 0.0; } }
-                j[(0, 0)] = -0.5; j[(1, 1)] = -2.0; j[(2, 2)] = -7.0;
-            }
-            Kind::Riccati => { j[(0, 0)] = -4.0 * t * y[0]; }
-            Kind::VdP => { j[(0, 0)] = 0.0; j[(0, 1)] = 1.0; j[(1, 0)] = -2.0 * y[0] * y[1] - 1.0; j[(1, 1)] = 1.0 - y[0] * y[0]; }
-            Kind::Mixed => {
-                let r = 1.0 - y[0] * y[0] - y[1] * y[1];
-                j[(0, 0)] = 0.1 * (r - 2.0 * y[0] * y[0]); j[(0, 1)] = -1.0 - 0.2 * y[0] * y[1];
-                j[(1, 0)] = 1.0 - 0.2 * y[0] * y[1]; j[(1, 1)] = 0.1 * (r - 2.0 * y[1] * y[1]);
-            }
-            Kind::Stiff => { j[(0, 0)] = -1000.0; j[(0, 1)] = 0.0; j[(1, 0)] = 0.0; j[(1, 1)] = -1.0; }
-            Kind::Blowup => { j[(0, 0)] = 2.0 * y[0]; }
-            Kind::Const => { j[(0, 0)] = 0.0; j[(0, 1)] = 0.0; j[(1, 0)] = 0.0; j[(1, 1)] = 0.0; }
-            Kind::VdPStiff => { j[(0, 0)] = 0.0; j[(0, 1)] = 1.0; j[(1, 0)] = -2000.0 * y[0] * y[1] - 1.0; j[(1, 1)] = 1000.0 * (1.0 - y[0] * y[0]); }
-            Kind::Slow => { j[(0, 0)] = -0.01; j[(0, 1)] = 0.0; j[(1, 0)] = 0.0; j[(1, 1)] = -0.01; }
-            Kind::Robertson => {
-                j[(0, 0)] = -0.04; j[(0, 1)] = 1.0e4 * y[2]; j[(0, 2)] = 1.0e4 * y[1];
-                j[(1, 0)] = 0.04; j[(1, 1)] = -1.0e4 * y[2] - 6.0e7 * y[1]; j[(1, 2)] = -1.0e4 * y[1];
-                j[(2, 0)] = 0.0; j[(2, 1)] = 6.0e7 * y[1]; j[(2, 2)] = 0.0;
-            }
+        let n0 = self.n0();
+        let tt = if self.reflect { -t } else { t };
+        let mut b = Matrix::zeros(n0, n0);
+        for c in 0..self.copies {
+            self.jac0(tt, &y[c * n0..(c + 1) * n0], &mut b);
+            for r in 0..n0 { for q in 0..n0 {
+                let v = b[(r, q)];
+                j[(c * n0 + r, c * n0 + q)] = if self.reflect { -v } else { v };
+            } }
         }
     }
 }
